@@ -51,13 +51,15 @@ int digitalRead(uint8_t pin);
 int analogRead(uint8_t pin);
 void analogWrite(uint8_t pin, int val);
 
-unsigned long millis(void);
-unsigned long micros(void);
-void delay(unsigned long ms);
+// On the AVR `unsigned long` is 32 bits wide: the clock functions wrap at 2^32 (millis() after ~49.7 days, micros() after
+// ~71 minutes).  The prototypes use uint32_t so that this also holds on the 64-bit host (see REDU_AVR_LONG below).
+uint32_t millis(void);
+uint32_t micros(void);
+void delay(uint32_t ms);
 void delayMicroseconds(unsigned int us);
-unsigned long pulseIn(uint8_t pin, uint8_t state, unsigned long timeout = 1000000UL);
+uint32_t pulseIn(uint8_t pin, uint8_t state, uint32_t timeout = 1000000UL);
 
-void tone(uint8_t pin, unsigned int frequency, unsigned long duration = 0);
+void tone(uint8_t pin, unsigned int frequency, uint32_t duration = 0);
 void noTone(uint8_t pin);
 
 long map(long, long, long, long, long);
@@ -129,5 +131,13 @@ extern HardwareSerial Serial;
 
 void setup(void);
 void loop(void);
+
+
+// Sketch translation units are compiled with -DREDU_AVR_LONG: from here on (after every prototype of this header, whose
+// types are shared with runtime.cpp) `long` means a 32-bit integer, as on the AVR - `unsigned long now = millis()` and
+// arithmetic on such variables wrap at 2^32 exactly like on the board.
+#ifdef REDU_AVR_LONG
+#define long int
+#endif
 
 #endif
